@@ -36,3 +36,10 @@ Example C20_remove_example :
               mkEdge 3 4 3 PElided (PPath "neg")] 2 9
   = Some [mkEdge 3 4 3 PElided (PPath "neg"); mkEdge 9 1 3 (PInt false 0) (PPath "pos")].
 Proof. vm_compute. reflexivity. Qed.
+
+(* known finding rewrite/self-loop-unary-node-panic: on `u = union(); u -> u;` the node's only edge
+   is both its input and its output; the model defines no contraction there (None), and the Rust
+   remove_intermediate_node panics (replayed by corpus/C20/self_loop_unary_union.json). *)
+Example C20_self_loop_has_no_contraction :
+  remove_mid [mkEdge 1 1 1 PElided PElided] 1 9 = None.
+Proof. vm_compute. reflexivity. Qed.
